@@ -34,6 +34,6 @@ m = {"version": 1, "setup_cmd": "./setup.sh",
      "checks": checks,
      "not_applicable": [{"property_id": p["id"], "reason": C["unclaimed"].get(p["id"], "check under construction in this round (not yet claimed)")}
                         for p in props if p["id"] not in claimed],
-     "notes": "See DESIGN.md. KNOWN_FINDINGS.txt lists four genuine defects repaired by fix: commits."}
+     "notes": "See DESIGN.md. KNOWN_FINDINGS.txt lists five genuine defects repaired by fix: commits (e303ab7, 0c75499, be30f55, 36958df, b3a9114) and one known finding (HMAC key normalisation, C02/C15)."}
 json.dump(m, open(os.path.join(V, "MANIFEST.json"), "w"), indent=1)
 print("claimed:", sorted(claimed))
